@@ -20,15 +20,25 @@ void property(const pbt::Tape& t, pbt::Ctx& ctx) {
     mbgen::Options opt; opt.maxBodies = 8;
     mbgen::ModelSpec spec = mbgen::decodeModel(t, 1, (int)t.size() - 1, g, opt);
     Vec3 grav(g.real(-10, 10), g.real(-10, 10), g.real(-10, 10));
-    if (ctx.wantDesc) { spec.describe(ctx.desc); ctx.desc << "gravity=" << grav << "\n"; }
+    // massless inner bodies (1/3 of the cases): any body that has a child may lose its mass; leaves keep theirs.
+    // Accelerations of such systems can be singular, so those cases are realized to Velocity and skip the acceleration clause.
+    bool anyMassless = false; int masslessWithTwoMassiveKids = 0;
+    if (g.pick(3) == 0) {
+        const int n = (int)spec.bodies.size(); std::vector<int> nkids(n + 1, 0);
+        for (int i = 0; i < n; ++i) nkids[spec.bodies[i].parent]++;
+        for (int i = 0; i < n; ++i) { bool want = g.pick(3) != 0; if (nkids[i + 1] >= 1 && want) { spec.bodies[i].mass = 0; anyMassless = true; } }
+        for (int i = 0; i < n; ++i) if (spec.bodies[i].mass == 0) { int k = 0; for (int j = 0; j < n; ++j) if (spec.bodies[j].parent == i + 1 && spec.bodies[j].mass > 0) ++k; if (k >= 2) ++masslessWithTwoMassiveKids; }
+    }
+    if (ctx.wantDesc) { spec.describe(ctx.desc); ctx.desc << "gravity=" << grav << (anyMassless ? " (massless inner bodies; Velocity stage only)" : "") << "\n"; }
     mbgen::labelModel(ctx, spec);
+    if (anyMassless) ctx.label("massless-inner-body"); if (masslessWithTwoMassiveKids) ctx.label("massless-body-with-2+-massive-children");
 
     mbgen::Built m(spec);
     Force::UniformGravity gr(m.forces, m.matter, grav);      // something to make accelerations non-trivial
     m.finish(spec); m.setState(spec);
     State& s = m.state; const SimbodyMatterSubsystem& matter = m.matter;
     const int NB = matter.getNumBodies();
-    m.sys.realize(s, Stage::Acceleration);
+    m.sys.realize(s, anyMassless ? Stage::Velocity : Stage::Acceleration);
     const Real eps = 2.220446049250313e-16;
 
     // ---- per-body data (reported)
@@ -37,7 +47,7 @@ void property(const pbt::Tape& t, pbt::Ctx& ctx) {
         const MobilizedBody& mb = matter.getMobilizedBody(MobilizedBodyIndex(b));
         MassProperties mp = mb.getBodyMassProperties(s); const Transform& X = mb.getBodyTransform(s);
         mass[b] = mp.getMass(); Vec3 c = X.R() * mp.getMassCenter(); com[b] = X.p() + c; org[b] = X.p();
-        V[b] = mb.getBodyVelocity(s); A[b] = mb.getBodyAcceleration(s);
+        V[b] = mb.getBodyVelocity(s); A[b] = anyMassless ? SpatialVec(Vec3(0), Vec3(0)) : mb.getBodyAcceleration(s);
         vcom[b] = V[b][1] + V[b][0] % c; acom[b] = A[b][1] + A[b][0] % c + V[b][0] % (V[b][0] % c);
         Mat33 Io = X.R() * mp.getInertia().toMat33() * ~X.R();          // about body origin, in G
         Ic[b] = Io - pointInertia(mass[b], c);                         // central
@@ -67,7 +77,7 @@ void property(const pbt::Tape& t, pbt::Ctx& ctx) {
     if (!ctx.check((Cl - C).norm() <= k * len, "system mass centre location differs from mass-weighted sum by " + S((Cl - C).norm()))) return;
     Vec3 vl = matter.calcSystemMassCenterVelocityInGround(s);
     if (!ctx.check((vl - vC).norm() <= k * vs * len, "system mass centre velocity differs by " + S((vl - vC).norm()))) return;
-    Vec3 al = matter.calcSystemMassCenterAccelerationInGround(s);
+    Vec3 al = anyMassless ? aC : matter.calcSystemMassCenterAccelerationInGround(s);
     if (!ctx.check((al - aC).norm() <= 10 * k * (as + vs * vs * len), "system mass centre acceleration differs by " + S((al - aC).norm()) + " (lib " + S(al.norm()) + ")")) return;
     Mat33 Il = matter.calcSystemCentralInertiaInGround(s).toMat33();
     if (!ctx.check(maxAbs33(Il - Icen) <= 10 * k * M * len * len, "system central inertia differs by " + S(maxAbs33(Il - Icen)))) return;
@@ -104,9 +114,9 @@ void property(const pbt::Tape& t, pbt::Ctx& ctx) {
 pbt::Config config() {
     pbt::Config c; c.prop = "C15"; c.K = mbgen::K; c.minUnits = 1;
     c.quick = {3000, 12000, 16, 25}; c.thorough = {30000, 100000, 16, 240};
-    c.rule = "rapidcheck tape -> mbgen tree (1..8 bodies, all mobilizer types incl. Weld, branching by random parent choice, distinct log-uniform masses, random COM/inertia), uniform gravity, realized to Acceleration. Non-trivial: >= 3 bodies, a body with >= 2 children (branching) and u != 0; distinct by tape hash.";
+    c.rule = "rapidcheck tape -> mbgen tree (1..8 bodies, all mobilizer types incl. Weld, branching by random parent choice, distinct log-uniform masses, random COM/inertia; in 1/3 of the cases inner bodies are made massless and the case is realized to Velocity only), uniform gravity, realized to Acceleration. Non-trivial: >= 3 bodies, a body with >= 2 children (branching) and u != 0; distinct by tape hash.";
     c.assumptions = {"per-body poses, velocities and accelerations are taken as reported (they are the subject of C03/C04/C02)", "tolerance 1e3..1e4 * eps * NB * (mass x length^2 x velocity scale)"};
-    c.requiredLabels = {"branching", "mob:Weld/fwd", "nbodies:7+"};
+    c.requiredLabels = {"branching", "mob:Weld/fwd", "nbodies:7+", "massless-inner-body", "massless-body-with-2+-massive-children"};
     return c;
 }
 } // namespace
